@@ -16,7 +16,7 @@ import random
 
 from simkit.driver import Check, base_result
 from ref import codec as C
-from checks.worldb import (WorldB, APPS, draw_sched_b, draw_knobs_b, LOCAL_HOST,
+from checks.worldb import (WorldB, WorldB2, draw_full_stack, APPS, draw_sched_b, draw_knobs_b, LOCAL_HOST,
                            LOCAL_REALM, PEER_HOST, PEER_REALM)
 
 CODES = [316, 318, 274, 275, 272, 258]
@@ -39,9 +39,12 @@ class C13(Check):
             "non-trivial = at least two requests in flight at once or at least one handler-failure outcome")
     components_real = ["Bromelia.route / get_request_callback / callback_route / create_error_answer / decorate_answer / send_message / main",
                        "Worker (queues, locks, recv_handler, send_handler)", "threading.Barrier batching (CPython source on the simulated lock)"]
-    components_stub = ["connection object underneath Worker (StubConnection instead of Diameter)",
-                       "multiprocessing.Manager -> in-process simulated primitives",
-                       "Worker.run / Diameter.context (harness starts recv_handler/send_handler/main directly)"]
+    components_stub = ["three runs in four (world B1): the connection object underneath Worker is a StubConnection instead of a "
+                       "Diameter, and the harness starts recv_handler/send_handler/main directly",
+                       "one run in four (world B2, full stack): nothing between the handlers / callers and the wire is a stub -- "
+                       "Bromelia.run, _run, Worker.run, Diameter.context, DiameterAssociation, PeerStateMachine, TcpClient run "
+                       "as shipped on the simulated OS, a scripted reference peer is the remote end",
+                       "multiprocessing.Manager -> in-process simulated primitives; Worker.start runs Worker.run as a simulator thread"]
     assumptions = ["every request carries a Session-Id, Origin-Host and Origin-Realm (the fallback answer copies them)",
                    "requests for unregistered (application, command) pairs: only 'no handler runs' is demanded",
                    "D = 2 s + polling intervals of the run, after the handler finished"]
@@ -107,6 +110,11 @@ class C13(Check):
             scn["horizon"] = 120.0
             scn["early_send"] = False
             knobs["BROMELIA_TICKER"] = max(knobs["BROMELIA_TICKER"], 0.0005)
+        elif index % 4 == 3:
+            # full stack (world B2): Bromelia.run() -> Worker.run() -> Diameter.context() -> real nodes on the
+            # simulated network; requests arrive on the wire (segmented), answers are read off the wire
+            draw_full_stack(rng2, scn)
+            scn["early_send"] = False
         for r in reqs:
             if r["registered"] and r["outcome"] in ("generic", "typed") and rng2.random() < 0.2:
                 r["outcome"] = "nested"
@@ -154,10 +162,10 @@ class C13(Check):
                 "knobs": scn["knobs"], "sched": scn["sched"], "outcome": res.get("summary")}
 
     def run(self, scn, tape_in=None):
-        wb = WorldB(scn, tape_in)
+        wb = WorldB2(scn, tape_in) if scn.get("full_stack") else WorldB(scn, tape_in)
         sim = wb.sim
         knobs = wb.world.knobs
-        D = 2.0 + 200 * knobs["BROMELIA_TICKER"] + 100 * knobs["PROCESS_TIMER"] + 20 * knobs["SEND_THRESHOLD_TICKER"] + \
+        D = 2 * wb.latency() + 2.0 + 200 * knobs["BROMELIA_TICKER"] + 100 * knobs["PROCESS_TIMER"] + 20 * knobs["SEND_THRESHOLD_TICKER"] + \
             400000 * sim.quantum
         violations = []
         invocations = []        # (route key, request hbh, step)
@@ -272,6 +280,12 @@ class C13(Check):
                     rec = wb.call("early_sender", app.send_message, early_req)
                     sim.wait_until(lambda: rec["t1"] is not None, 2.0, poll=0.001)
             wb.start()
+            if wb.full_stack:
+                if not (wb.workers and all(w.is_open.is_set() for w in wb.workers)):
+                    sim.probe("b2_not_open")
+                    stats["not_started"] = 1
+                    return None
+                sim.probe("b2_open")
             # which stub serves which application
             stub_of = {}
             for wi, idxs in enumerate(scn["apps_per_worker"]):
@@ -316,6 +330,8 @@ class C13(Check):
 
         # ---------------- oracle ----------------
         sent = []
+        if stats.get("not_started"):
+            return base_result(sim, [], summary=dict(stats, invocations=0), extra={"inconclusive": "connections did not open"})
         for st_ in wb.stubs:
             for (step, t, raw, msg) in st_.sent:
                 try:
